@@ -2,6 +2,8 @@ package vlib
 
 import (
 	"fmt"
+	"os"
+	"sync/atomic"
 
 	seccomp "github.com/elastic/go-seccomp-bpf"
 	"golang.org/x/net/bpf"
@@ -107,8 +109,55 @@ type Compiled struct {
 
 // Compile runs the real compiler: Policy.Assemble for target t (hook H1), then
 // the raw encoding LoadFilter uses.
+// compileSeq counts compilations of the process; rejectedInterleaved the rejected policies compiled in between.
+var compileSeq, rejectedInterleaved atomic.Int64
+var noRejectedHistory = os.Getenv("VERIF_NO_REJECTED_HISTORY") != ""
+
+// RejectedInterleaved is the number of rejected policies that Compile has put in front of judged compilations.
+func RejectedInterleaved() int64 { return rejectedInterleaved.Load() }
+
+// compileRejected compiles, in the calling goroutine, a policy that the compiler must reject (whatever it answers is
+// ignored): a history axis. What a rejected compilation leaves behind - in a pool, a cache, a package variable - must not
+// show in the compilation that follows. The policies have a first group that is fine and would emit instructions with
+// conspicuous actions (trap|0x77 / trace|0x99 are used by no generated policy), and a later element that is refused at
+// different depths of the compiler: name resolution, duplicate detection, condition validation, the label assembler.
+func compileRejected(t *Target, n int64) {
+	defer func() { recover() }()
+	if len(t.Names) < 8 {
+		return
+	}
+	a, b := seccomp.ActionTrap|0x77, seccomp.ActionTrace|0x99
+	k := int(n/5) % (len(t.Names) - 6)
+	good := seccomp.SyscallGroup{Names: []string{t.Names[k], t.Names[k+1], t.Names[k+2]}, Action: a}
+	goodCond := seccomp.SyscallGroup{Names: []string{t.Names[k+3]}, NamesWithCondtions: []seccomp.NameWithConditions{{Name: t.Names[k+4], Conditions: seccomp.ArgumentConditions{{Argument: 1, Operation: seccomp.Equal, Value: 0x1234}}}}, Action: b}
+	var groups []seccomp.SyscallGroup
+	switch (n / 5) % 7 {
+	case 0:
+		groups = []seccomp.SyscallGroup{good, {Names: []string{t.Names[k+5], "no_such_syscall_verif"}, Action: b}}
+	case 1:
+		groups = []seccomp.SyscallGroup{good, goodCond, {Names: []string{t.Names[k+5], t.Names[k+5]}, Action: a}}
+	case 2:
+		groups = []seccomp.SyscallGroup{good, {NamesWithCondtions: []seccomp.NameWithConditions{{Name: t.Names[k+5]}}, Action: b}}
+	case 3:
+		groups = []seccomp.SyscallGroup{goodCond, good, {NamesWithCondtions: []seccomp.NameWithConditions{{Name: t.Names[k+5], Conditions: seccomp.ArgumentConditions{{Argument: 7, Operation: seccomp.Equal, Value: 1}}}}, Action: a}}
+	case 4:
+		groups = []seccomp.SyscallGroup{good, {NamesWithCondtions: []seccomp.NameWithConditions{{Name: t.Names[k+5], Conditions: seccomp.ArgumentConditions{{Argument: 0, Operation: "NoSuchOperation", Value: 1}}}}, Action: b}}
+	case 5:
+		groups = []seccomp.SyscallGroup{{Names: []string{"no_such_syscall_verif"}, Action: a}, good, goodCond}
+	default:
+		groups = []seccomp.SyscallGroup{good, goodCond, {Names: []string{t.Names[k+5]}, NamesWithCondtions: []seccomp.NameWithConditions{{Name: t.Names[k+5], Conditions: seccomp.ArgumentConditions{{Argument: 0, Operation: seccomp.Equal, Value: 1}}}}, Action: a}}
+	}
+	rp := &seccomp.Policy{DefaultAction: seccomp.ActionAllow, Syscalls: groups}
+	seccomp.VerifSetArch(rp, t.Info)
+	rp.Assemble()
+	rejectedInterleaved.Add(1)
+}
+
 func Compile(p *seccomp.Policy, t *Target) (c *Compiled) {
 	c = &Compiled{Policy: p, T: t}
+	if n := compileSeq.Add(1); n%5 == 0 && !noRejectedHistory {
+		compileRejected(t, n)
+	}
 	defer func() {
 		if e := recover(); e != nil {
 			c.Panic = e
